@@ -387,6 +387,14 @@ def remove_block(
     assert block.module and block.ir and block.section
     module = block.module
 
+    if _verif.ENABLED:
+        _verif.emit(
+            "remove_block_begin",
+            cache=cache,
+            block=block,
+            retarget_to_proxy=retarget_to_proxy,
+        )
+
     prev_block, next_block = cache.adjacent_blocks(block)
     if retarget_to_proxy:
         proxy_block = gtirb.ProxyBlock(module=module)
